@@ -165,11 +165,17 @@ def local_of(n):
 def min_args(n):
     """(a, b) if n is `std::cmp::min(a, b)` or `a.min(b)` (Ord::min), else None."""
     n = peel_ref(n)
+    ab = None
     if n.get("k") == "call" and (cname(n) or "").endswith("cmp::min") and len(n["args"]) == 2:
-        return n["args"][0], n["args"][1]
-    if n.get("k") == "mcall" and n["name"] == "min" and len(n["args"]) == 1 and (cname(n) or "").endswith("Ord::min"):
-        return n["recv"], n["args"][0]
-    return None
+        ab = (n["args"][0], n["args"][1])
+    elif n.get("k") == "mcall" and n["name"] == "min" and len(n["args"]) == 1 and (cname(n) or "").endswith("Ord::min"):
+        ab = (n["recv"], n["args"][0])
+    if ab is None:
+        return None
+    # min is commutative: the compound operand first, the plain local (the bound it is clamped by) second
+    if local_of(peel_ref(ab[0])) is not None and local_of(peel_ref(ab[1])) is None:
+        ab = (ab[1], ab[0])
+    return ab
 
 
 CONSTS = {}        # def path of a constant whose initialiser is a literal -> its value (filled by Program)
@@ -290,6 +296,13 @@ def render(n, depth=0):
     if k == "call":
         f = peel(n["f"])
         fn = short_path(callee_generic(n)) if callee_generic(n) else R(f)
+        # an empty collection is an empty collection: the capacity hint is never observable
+        if fn in ("std::vec::Vec::with_capacity", "std::vec::Vec::<T>::with_capacity") and len(n["args"]) == 1:
+            return "std::vec::Vec::new()"
+        if fn == "std::string::String::with_capacity" and len(n["args"]) == 1:
+            return "std::string::String::new()"
+        if fn.endswith("Default::default") and not n["args"] and strip_generics(n.get("ty") or "") == "std::vec::Vec":
+            return "std::vec::Vec::new()"
         return "%s(%s)" % (fn, ", ".join(R(a) for a in n["args"]))
     if k == "mcall":
         return "%s.%s(%s)" % (R(n["recv"]), n["name"], ", ".join(R(a) for a in n["args"]))
@@ -484,6 +497,14 @@ class Program:
                 for b in impls:
                     out.append((b["def_path"], n))
         return out
+
+    def entry_universe(self):
+        """def paths reachable from the library entry points clean / list / list_all (what the properties quantify over);
+        code that nothing of this calls - a new public convenience method, say - is not part of any analysed behaviour."""
+        if not hasattr(self, "_universe"):
+            roots = [b["def_path"] for n_ in ("chiritori::clean", "chiritori::list", "chiritori::list_all") for b in [self.fn(n_, required=False)] if b]
+            self._universe = set(self.reachable(roots)) if roots else None
+        return self._universe
 
     def reachable(self, roots):
         seen, work = [], list(roots)
